@@ -202,6 +202,42 @@ def selectDU (disc : Nat) (dmap : List (Nat × Mid)) (v : V) : Option (Option Mi
     (lookupKey disc (es.getD [])).map (fun dv => lookupDisc dv dmap)
   | _ => none
 
+/-! ### discriminated union over its option LIST (written without building an index)
+
+  an option is SELECTED by a discriminator value iff it declares that value.  The option list is well-formed iff
+  no value is declared twice and some value is declared; an ill-formed union accepts nothing.  A value that selects
+  an option is decided by that option alone; a value that selects none (undeclared, of another Go type, not even
+  hashable) is decided by the documented fallback: some option accepts. -/
+
+def declaring (os : List DUOpt) (id : Nat) : List Mid := (os.filter (fun o => o.vals.contains id)).map (·.m)
+
+def declaredVals (os : List DUOpt) : List Nat := os.flatMap (·.vals)
+
+def nodupB : List Nat → Bool
+  | [] => true
+  | x :: xs => !xs.contains x && nodupB xs
+
+def wellFormedDU (os : List DUOpt) : Bool := nodupB (declaredVals os) && !(declaredVals os).isEmpty
+
+/-- the verdict on a `map[string]any` input `v` whose discriminator value is `dv`. -/
+def decidedBy (env : Env) (os : List DUOpt) (v : V) (dv : V) : Bool :=
+  match dv with
+  | .atom _ id =>
+    (match declaring os id with
+     | [] => os.any (fun o => acc env o.m v)     -- selects no option: the fallback
+     | t :: _ => acc env t v)                     -- the selected option alone
+  | _ => os.any (fun o => acc env o.m v)         -- not even a scalar: selects no option
+
+def acceptsDU (env : Env) (m : Mods) (disc : Nat) (os : List DUOpt) (v : V) : Bool :=
+  wellFormedDU os &&
+    ((v.isNil && (m.optional || m.nilable)) ||
+     (match v with
+      | .map .str .any es =>
+        (match lookupKey disc (es.getD []) with
+         | none => false
+         | some dv => decidedBy env os v dv)
+      | _ => false))
+
 /-- C02: the right-hand side of the composition law. -/
 def accepts (env : Env) (n : Node) (v : V) : Bool :=
   match n with
